@@ -265,6 +265,16 @@ def run(chk):
         "(difftime(sim_time, state.run_time((*this))) < this.min_wait())": ("E", True),
     }
     seen_atoms = set()
+    # the elapsed-time atom is recognised by its structure so that a wrong reference time is a verdict, not a parse failure
+    for n in walk(rd["body"]):
+        if n["k"] == "Bin" and n.get("op") in (">=", "<", ">", "<="):
+            l_, r_ = strip(n["c"][0]), strip(n["c"][1])
+            if l_["k"] == "Call" and (l_.get("fn") or "").replace("std::", "") == "difftime" and len(l_.get("a", [])) == 2 and "min_wait" in show(r_):
+                t1, t0 = show(strip(l_["a"][0])), show(strip(l_["a"][1]))
+                chk.instance(r_ready, "elapsed", sample=dict(elapsed="difftime(%s, %s)" % (t1, t0), compared_with=show(r_)))
+                if t1 != "sim_time" or t0 != "state.run_time((*this))":
+                    chk.violation(r_ready, "elapsed", "ActionX::ready compares difftime(%s, %s) with min_wait(): the minimum wait must be measured from the action's previous run, difftime(sim_time, state.run_time(*this))" % (t1, t0), rd["file"], n["l"])
+                    ATOMS[show(n).replace("std::", "").replace("0.0", "0")] = ("E", n["op"] in ("<", "<="))
     for bits in itertools.product([False, True], repeat=5):
         val = dict(zip("ABCDE", bits))
 
